@@ -350,7 +350,11 @@ Proof.
   assert (Htb : zlen tb < 2 ^ 31) by (unfold zlen in *; rewrite app_length in Hbs; lia).
   destruct (rans_roundtrip_pieces 12 probs tags tb (packed ++ rest) ltac:(lia) Htok Hused Hew Htb)
     as (d & r1 & st & stf & Hc & Hn0 & Hsd & Hr).
-  unfold dec_tagged. change (rans_precision_bits 5) with 12. rewrite <- app_assoc. rewrite Hc. cbn [dbind].
+  unfold dec_tagged.
+  assert (Hguard : (nc =? 0)%nat || negb (length syms mod nc =? 0)%nat = false).
+  { rewrite Hlen, Nat.mod_mul by lia. destruct nc; [lia|reflexivity]. }
+  rewrite Hguard.
+  change (rans_precision_bits 5) with 12. rewrite <- app_assoc. rewrite Hc. cbn [dbind].
   rewrite Hsd. cbn [dbind]. rewrite Hn0, andb_false_r.
   destruct (pack_unpack (length (enc_value_bits gs)) (enc_value_bits gs) ltac:(lia)) as (pad & Hpu & Hpad & Hpl).
   fold packed in Hpu, Hpl.
@@ -560,34 +564,32 @@ Lemma consumed_rev_length bs r pre : (length r <= length bs)%nat ->
   length (consumed_rev bs r pre) = (length bs - length r + length pre)%nat.
 Proof. intros. unfold consumed_rev. rewrite rev_append_rev, app_length, rev_length, firstn_length. lia. Qed.
 
-Lemma read_init_total P pre blk : (3 <= length pre)%nat -> safe (rans_read_init P pre blk).
+Lemma read_init_total P pre blk : safe (rans_read_init P pre blk).
 Proof.
-  intros Hp. unfold rans_read_init.
+  unfold rans_read_init.
   assert (Hchk : forall x stk, safe (let x' := (x + rans_L P) mod 2 ^ 32 in if x' >=? rans_L P * 256 then @Fail rstate else Ok (x', stk))).
   { intros. cbv zeta. destruct (_ >=? _); exact I. }
   destruct (rev' blk) as [|b0 r0]; [exact I|].
   destruct (b0 / 64 =? 0); [apply Hchk|].
   destruct (b0 / 64 =? 1); [destruct r0; [exact I|apply Hchk]|].
   destruct (b0 / 64 =? 2); [destruct r0 as [|? [|? ?]]; try exact I; apply Hchk|].
-  destruct pre as [|p1 [|p2 [|p3 pre']]]; cbn [length] in Hp; try lia.
-  cbn [firstn]. destruct r0 as [|b1 [|b2 [|b3 r3]]]; cbn [app]; apply Hchk.
+  destruct r0 as [|b1 [|b2 [|b3 r3]]]; try exact I. apply Hchk.
 Qed.
 
-Lemma start_total ver P pre bs : nonneg_bytes bs -> zlen bs < 2 ^ 26 -> (2 <= length pre)%nat ->
+Lemma start_total ver P pre bs : nonneg_bytes bs -> zlen bs < 2 ^ 26 ->
   match rans_start_decoding ver P pre bs with
   | Ok (st, r) => (length r <= length bs)%nat
   | Fail => True
   | _ => False
   end.
 Proof.
-  intros Hb Hlen Hp. unfold rans_start_decoding.
+  intros Hb Hlen. unfold rans_start_decoding.
   destruct (if ver <? 512 then dec_le 8 bs else dec_varint_u 64 bs) as [[len r]|] eqn:En; cbn [of_opt dbind]; [|exact I].
   pose proof (opt_len_shorter ver 64 7 bs len r En) as Hsh.
   destruct (len >? zlen r) eqn:Eg; [exact I|].
   change (2^26) with 67108864 in Hlen. unfold zlen in *.
   destruct (len >=? 2 ^ 31) eqn:E31; [change (2^31) with 2147483648 in E31; lia|].
   pose proof (read_init_total P (consumed_rev bs r pre) (firstn (Z.to_nat len) r)) as Hri.
-  rewrite consumed_rev_length in Hri by lia. specialize (Hri ltac:(lia)).
   destruct (rans_read_init P _ _) as [st| | |]; try exact Hri. cbn [dbind]. rewrite skipn_length. lia.
 Qed.
 
@@ -651,12 +653,12 @@ Proof.
   assert (Hrl : zlen r < 2 ^ 26) by (unfold zlen in *; cbn [length] in Hlen; lia).
   destruct (scheme =? 0).
   - (* tagged *)
-    unfold dec_tagged. set (P := rans_precision_bits 5).
+    unfold dec_tagged. destruct ((nc =? 0)%nat || negb (S n mod nc =? 0)%nat); [exact I|].
+    set (P := rans_precision_bits 5).
     pose proof (create_total ver P r Hr Hrl) as Hc.
     destruct (rans_dec_create ver P r) as [[d r1]| | |]; try exact Hc. cbn [dbind].
     destruct Hc as (Hsh & Hr1 & Hd).
     pose proof (start_total ver P (consumed_rev r r1 (scheme :: pre)) r1 Hr1 ltac:(unfold zlen in *; lia)) as Hs.
-    rewrite consumed_rev_length in Hs by lia. cbn [length] in Hs. specialize (Hs ltac:(lia)).
     destruct (rans_start_decoding ver P _ r1) as [[st r2]| | |]; try exact Hs. cbn [dbind].
     destruct ((0 <? Z.of_nat (S n)) && (d_n d =? 0)) eqn:E0; [exact I|].
     destruct Hd as [Hd|Hd]; [lia|].
@@ -673,8 +675,103 @@ Proof.
     destruct Hc as (Hsh & Hr1 & Hd).
     destruct ((0 <? Z.of_nat (S n)) && (d_n d =? 0)) eqn:E0; [exact I|].
     pose proof (start_total ver P (consumed_rev r0 r1 (bl :: scheme :: pre)) r1 Hr1 ltac:(unfold zlen in *; lia)) as Hs.
-    rewrite consumed_rev_length in Hs by lia. cbn [length] in Hs. specialize (Hs ltac:(lia)).
     destruct (rans_start_decoding ver P _ r1) as [[st r2]| | |]; try exact Hs. cbn [dbind].
     destruct Hd as [Hd|Hd]; [lia|].
     destruct (rans_read_n_total P d Hd (S n) st) as (l & st' & Hn). rewrite Hn. exact I.
 Qed.
+
+
+(** * How many values the decoders return, on ARBITRARY bytes *)
+Lemma rans_read_n_length P d : forall n st l st', rans_read_n P d n st = Ok (l, st') -> length l = n.
+Proof.
+  induction n as [|n IH]; intros st l st' H; cbn [rans_read_n] in H.
+  - injection H as <- _. reflexivity.
+  - destruct (rans_read P d st) as [[s st1]| | |]; cbn [dbind] in H; try discriminate.
+    destruct (rans_read_n P d n st1) as [[l' st2]| | |] eqn:E; cbn [dbind] in H; try discriminate.
+    injection H as <- _. cbn [length]. f_equal. eapply IH; eauto.
+Qed.
+
+Lemma rans_decode_symbols_length ver P n pre bs syms r :
+  rans_decode_symbols ver P n pre bs = Ok (syms, r) -> length syms = n.
+Proof.
+  unfold rans_decode_symbols. intros H.
+  destruct (rans_dec_create ver P bs) as [[d r1]| | |]; cbn [dbind] in H; try discriminate.
+  destruct ((0 <? Z.of_nat n) && (d_n d =? 0)); [discriminate|].
+  destruct (rans_start_decoding ver P _ r1) as [[st r2]| | |]; cbn [dbind] in H; try discriminate.
+  destruct (rans_read_n P d n st) as [[l st']| | |] eqn:E; cbn [dbind] in H; try discriminate.
+  injection H as <- _. eapply rans_read_n_length; eauto.
+Qed.
+
+Lemma take_values_length : forall n tag bits acc, length (fst (take_values n tag bits acc)) = (n + length acc)%nat.
+Proof.
+  induction n as [|n IH]; intros tag bits acc; cbn [take_values]; [reflexivity|].
+  destruct (take_bits tag bits) as [v bits']. rewrite IH. cbn [length]. lia.
+Qed.
+
+Lemma dec_tagged_loop_length P d nc : forall k st bits acc vals bits',
+  dec_tagged_loop P d k nc st bits acc = Ok (vals, bits') -> length vals = (length acc + k * nc)%nat.
+Proof.
+  induction k as [|k IH]; intros st bits acc vals bits' H; cbn [dec_tagged_loop] in H.
+  - injection H as <- _. rewrite rev'_rev, rev_length. lia.
+  - destruct (rans_read P d st) as [[tag st1]| | |]; cbn [dbind] in H; try discriminate.
+    destruct (tag >? 32); [discriminate|].
+    pose proof (take_values_length nc (Z.to_nat tag) bits acc) as Hl.
+    destruct (take_values nc (Z.to_nat tag) bits acc) as [acc' bits1]. cbn [fst] in Hl.
+    apply IH in H. lia.
+Qed.
+
+(** DecodeTaggedSymbols stores num_components values per round of `for (i = 0; i < num_values; i += num_components)`;
+    since it rejects counts that are not a multiple of num_components (commit 6105d6f) that is exactly num_values. *)
+Lemma dec_tagged_length ver n nc pre bs syms r :
+  dec_tagged ver n nc pre bs = Ok (syms, r) -> length syms = n.
+Proof.
+  unfold dec_tagged. intros H.
+  destruct ((nc =? 0)%nat || negb (n mod nc =? 0)%nat) eqn:Eg; [discriminate|].
+  apply orb_false_elim in Eg as (Enc & Emod). apply negb_false_iff in Emod.
+  apply Nat.eqb_neq in Enc. apply Nat.eqb_eq in Emod.
+  destruct (rans_dec_create ver _ bs) as [[d r1]| | |]; cbn [dbind] in H; try discriminate.
+  destruct (rans_start_decoding ver _ _ r1) as [[st r2]| | |]; cbn [dbind] in H; try discriminate.
+  destruct ((0 <? Z.of_nat n) && (d_n d =? 0)); [discriminate|].
+  destruct (dec_tagged_loop _ d _ nc st (bits_of_bytes r2) []) as [[vals bits']| | |] eqn:E; cbn [dbind] in H; try discriminate.
+  injection H as <- _. apply dec_tagged_loop_length in E. cbn [length] in E. rewrite E. cbn [Nat.add].
+  pose proof (Nat.div_mod n nc Enc) as Hdm. rewrite Emod, Nat.add_0_r in Hdm.
+  assert (Hq : ((n + nc - 1) / nc = n / nc)%nat).
+  { symmetry. apply Nat.div_unique with (r := (nc - 1)%nat); lia. }
+  rewrite Hq. lia.
+Qed.
+
+(** On arbitrary bytes, for every count and component count, a successful decode returns exactly num_values values. *)
+Lemma dec_symbols_length_uncond ver n nc pre bs syms r : dec_symbols ver n nc pre bs = Ok (syms, r) -> length syms = n.
+Proof.
+  unfold dec_symbols. destruct n as [|n]. { intros H. injection H as <- _. reflexivity. }
+  destruct bs as [|scheme b]; [discriminate|].
+  destruct (scheme =? 0). { intros H. eapply dec_tagged_length; eauto. }
+  destruct (scheme =? 1); [|discriminate].
+  unfold dec_raw. destruct b as [|bl b0]; [discriminate|]. destruct ((bl <? 1) || (bl >? 18)); [discriminate|].
+  intros H. eapply rans_decode_symbols_length; eauto.
+Qed.
+Lemma dec_symbols_opt_length_uncond n nc bs syms r : dec_symbols_opt n nc bs = Some (syms, r) -> length syms = n.
+Proof.
+  intros H. unfold dec_symbols_opt in H.
+  destruct (dec_symbols 514 n nc [] bs) as [[s' r']| | |] eqn:E; cbn [to_opt] in H; try discriminate.
+  injection H as <- <-. eapply dec_symbols_length_uncond; eauto.
+Qed.
+
+Lemma dec_symbols_length_gen ver n nc pre bs syms r : dec_symbols ver n nc pre bs = Ok (syms, r) ->
+  length syms = n \/ length syms = ((n + nc - 1) / nc * nc)%nat.
+Proof. intros H. left. eapply dec_symbols_length_uncond; eauto. Qed.
+
+(** The shape used by Proofs/SeqCodecInst_proofs.v (the divisibility hypotheses are no longer needed). *)
+Lemma dec_symbols_length ver n nc pre bs syms r : (1 <= nc)%nat -> (exists k, n = (k * nc)%nat) ->
+  dec_symbols ver n nc pre bs = Ok (syms, r) -> length syms = n.
+Proof. intros _ _. apply dec_symbols_length_uncond. Qed.
+
+Lemma dec_symbols_opt_length n nc bs syms r : (1 <= nc)%nat -> (exists k, n = (k * nc)%nat) ->
+  dec_symbols_opt n nc bs = Some (syms, r) -> length syms = n.
+Proof. intros _ _. apply dec_symbols_opt_length_uncond. Qed.
+
+(** Historical note: before commit 6105d6f DecodeTaggedSymbols(1 value, 2 components) on the bytes
+    [0; 3; 7; 1; 64; 1; 0; 15] returned true and stored two values (a write past out_values[num_values - 1]);
+    the decoder now rejects that call. *)
+Lemma dec_symbols_rejects_non_multiple : dec_symbols_opt 1 2 [0; 3; 7; 1; 64; 1; 0; 15] = None.
+Proof. vm_compute. reflexivity. Qed.
